@@ -157,8 +157,14 @@ class C17Hook:
 
 
 # ----------------------------------------------------------------------------- scenarios
+EXTRA_DOCS = [
+    # resource limits: a scenario with more steps than the interpreter's recursion limit, all of them conjunctions
+    ("extra/deep_conjunctions", "Feature: deep\n  Background:\n    Given start\n  Scenario: s\n" + "    And more\n" * 1100 + "    But last\n"),
+]
+
+
 def _docs_for_enum():
-    return list(workload.pool()) + list(workload.corpus())
+    return list(workload.pool()) + list(workload.corpus()) + EXTRA_DOCS
 
 
 def _golden(name):
